@@ -172,7 +172,7 @@ theorem c11_conn_close_releases (capOf : Nat → Nat) (maxWB : Nat) (ops : List 
 /-- non-vacuity: a backlog that is merged with growth, partly flushed, and released by a fatal error -/
 example :
     let capOf := fun n => max 64 ((n + 63) / 64 * 64)
-    let s := crun capOf 0 {} [.write 100 .eagain, .write 3000 .eagain, .write 70000 .eagain,
+    let s := crun capOf 0 {} [.write 100 [.eagain], .write 3000 [.eagain], .write 70000 [.eagain],
                                .flush [.wrote 1000], .flush [.fail]]
     s.heap.bad = none ∧ s.closed = true ∧ s.wl = [] ∧
       s.heap.trace.reverse = [.write none, .malloc 1 100, .malloc 2 3100, .free 1, .append 2, .malloc 3 70000,
